@@ -34,8 +34,9 @@ vlib.standard_check({
     "nontrivial": lambda t: t.get("transfers_out", 0),
     "extra_cov": lambda t: {"observations_not_part_of_the_property": t.get("obs", {}), "propfail_signatures": t.get("fails", {})},
     "rule": "random chains (length 1..6) of the real stages regDownstream, regDownstreamBlocking, regReady, regDecouple, delay(0..3), stall, "
-            "fifo(minDepth 2..9, latency 0/1/2/3/DontCare), extendWidth(1..4), reduceWidth(1..4) over 4 stream types "
-            "(RvStream<UInt>, RvPacketStream<UInt>, +TxId+Error, +Sop+Empty), head width 1..16, random payload and meta signals; "
+            "fifo(minDepth 2..9, latency 0/1/2/3/DontCare), extendWidth(1,2,3,4,8), reduceWidth(1,2,3,4,6,8) over 6 stream types "
+            "(RvStream<UInt>, RvPacketStream<UInt>, +TxId+Error, +Sop+Empty, RvStream<UInt,ByteEnable>, RvPacketStream<UInt,ByteEnable,TxId>; "
+            "byte enables: one bit per 1..32 payload bits or two per group, narrow-side group <= 8 bits), head width 1..60, random payload, byte enables and meta signals; "
             "law-abiding producer with random / bursty / sparse validity, consumer ready random / bursty / periodic / a combinational "
             "function of the offered valid (ready only while valid, ready dropping when valid rises, ...), random stall conditions, "
             "then a drain phase; per cycle valid/ready/payload at every stage boundary. evaluations = stage-cycles replayed on the model; "
@@ -48,9 +49,11 @@ vlib.standard_check({
                   "valid/ready/stall schedules obeying the interface law on the input: in-order, unchanged, at-most-once emission, no emission of "
                   "unaccepted beats, output interface law; closed under composition (compose_preserves, chain_preserves by induction). Models tied to "
                   "the C++ generators by cycle-exact differential simulation at every stage boundary of random chains.",
-    "assumptions": ["eventual delivery (Live/compose_live/chain_live) is proved as an extra under explicit fairness and compatibility side conditions; "
+    "assumptions": ["reduceWidth on ByteEnable streams only with narrow-side enable groups <= 8 bits (its dynamic slice offset is counter width + group width "
+                    "bits wide and elaboration cost grows exponentially with it; a 32-bit group exhausts memory)",
+                    "eventual delivery (Live/compose_live/chain_live) is proved as an extra under explicit fairness and compatibility side conditions; "
                     "stuck chains outside them (regDownstreamBlocking feeding reduceWidth) are counted as observations, lost beats are violations",
-                    "extendWidth/reduceWidth with reset input tied to '0'; ByteEnable meta signal not exercised",
+                    "extendWidth/reduceWidth with reset input tied to '0'",
                     "clock-domain-crossing FIFOs, arbiters, field extraction, packet insert/erase outside this property",
                     "stall: output law only under stallOk (condition does not rise while a beat is offered and not taken)"],
 })
